@@ -21,7 +21,9 @@ Statement forms beyond py2coq's:
   the timer idiom  (if self.timeout_handle: self.timeout_handle.cancel(); self.timeout_handle = None)
                                                 -> let s__ := cancel_timer s__
   the task idiom   (task = asyncio.create_task(C); task.add_done_callback(lambda t: self.CB(t, ..)))
-                   optionally inside try/except RuntimeError (no running loop: outside the model)
+                   optionally inside try/except RuntimeError (no running loop: outside the model), optionally followed by
+                   `except Exception as e` for a call that fails before producing an awaitable (outside the model; checked to be
+                   the done-callback's own handler for a failed task, log calls apart)
                                                 -> let '(s__, id__) := spawn s__ KIND in a__ ++ [ACTION id__ ..]
   logger.* calls and the statements listed in SKIP (duration bookkeeping for log lines, certificate
   extraction: the peer's fingerprint is a constant of the connection in the model) are ignored."""
@@ -226,6 +228,20 @@ class StFn(Fn):
         sp = self.spawn_idiom([s] + rest[:1]) if rest else None
         if sp:
             return self.emit_spawn(sp[0], sp[1], rest[1:], k, kc)
+        if isinstance(s, ast.Try) and len(s.handlers) == 2 and not s.orelse and not s.finalbody and self.spawn_idiom(s.body) \
+                and [ast.unparse(h.type) if h.type is not None else "" for h in s.handlers] == ["RuntimeError", "Exception"]:
+            # try: <task idiom> except RuntimeError: <no loop> except Exception as e: <the CALL itself failed before any task existed>.
+            # The second handler is outside the model too (the model's handlers always yield a task), but it is CHECKED to be, apart
+            # from log calls, the same statements as the `except Exception` clause of the done-callback: a call that fails at once
+            # is answered exactly as a task that fails - the path the model does cover (TExc).
+            sp = self.spawn_idiom(s.body)
+            h2 = s.handlers[1]
+            cb = find_function(self.spec["__tree__"], self.spec["cls"], sp[1].func.attr)
+            cbh = [hh for st in cb.body if isinstance(st, ast.Try) for hh in st.handlers if hh.type is not None and ast.unparse(hh.type) == "Exception"]
+            def strip(body): return [ast.unparse(x) for x in body if not ast.unparse(x).startswith("logger.")]
+            if len(cbh) != 1 or h2.name != cbh[0].name or strip(h2.body) != strip(cbh[0].body):
+                bad(s, "the handler for a call that fails before producing an awaitable differs from the done-callback's handler for a failed task")
+            return self.emit_spawn(sp[0], sp[1], rest, k, kc)
         if isinstance(s, ast.Try) and len(s.handlers) == 1 and not s.orelse and not s.finalbody:
             h = s.handlers[0]
             hname = ast.unparse(h.type) if h.type is not None else ""
@@ -412,6 +428,7 @@ def main(out_path):
         at = dict(ATTRS); at.update(spec.get("attrs", {})); spec["attrs"] = at
         spec.setdefault("skip", SKIP_CERT)
         spec.setdefault("spawn_kinds", SPAWN_KINDS); spec.setdefault("spawn_actions", SPAWN_ACTIONS)
+        spec["__tree__"] = tree
         fn = copy.deepcopy(find_function(tree, spec["cls"], spec["func"]))
         try:
             chunks.append(SFn(spec, fn, consts).translate())
